@@ -67,15 +67,31 @@ class Ctx:
         self.notes = []
         self.vacuity_probe = False
         self.nonlinear = False
+        self._last_model = None
+        self.sqrt_seen = {}
 
     # ---------------------------------------------------------------- solver plumbing
     def _check(self, *extra):
+        if self.nonlinear:
+            # nonlinear path: z3 does not use nlsat incrementally (and may ignore its timeout there), so
+            # feasibility is decided in a fresh solver, with the guided search as a fall-back for `sat`
+            goal = self.path + list(extra)
+            r, m = solve_fresh(goal, 10000, self.stats)
+            if r == "unknown":
+                m = guided_sat(goal, self.stats, attempts=100, budget_s=8.0)
+                if m is None:
+                    raise Inconclusive("solver unknown on a nonlinear feasibility query")
+                r = "sat"
+            self._last_model = m
+            return r == "sat"
         t = time.time()
         r = self.solver.check(*extra)
         self.stats.solver_s += time.time() - t
         self.stats.queries += 1
         if r == z3.unknown:
             raise Inconclusive("solver unknown on feasibility query: %s" % self.solver.reason_unknown())
+        if r == z3.sat:
+            self._last_model = None
         return r == z3.sat
 
     def add(self, c):
@@ -86,7 +102,7 @@ class Ctx:
         if self._model is None:
             if not self._check():
                 raise Abort()
-            self._model = self.solver.model()
+            self._model = self._last_model if self._last_model is not None else self.solver.model()
         return self._model
 
     def _holds_in_model(self, c):
@@ -116,7 +132,7 @@ class Ctx:
         self._model = None
         if not self._check():
             raise Abort()
-        self._model = self.solver.model()
+        self._model = self._last_model if self._last_model is not None else self.solver.model()
 
     def branch(self, cond):
         """Decide a symbolic boolean; forks when both outcomes are feasible."""
@@ -227,7 +243,7 @@ class Ctx:
             if r == z3.sat:
                 self.violations.append(Violation(label, self.solver.model(), detail))
                 return False
-        r, m = solve_fresh(self.path + [z3.Not(cond)], self.prove_timeout_ms, self.stats)
+        r, m = discharge(self.path, cond, self.prove_timeout_ms, self.stats)
         if r == "unsat":
             self.stats.discharged += 1
             return True
@@ -253,6 +269,230 @@ def solve_fresh(constraints, timeout_ms, stats=None):
     if r == z3.unsat:
         return "unsat", None
     return "unknown", None
+
+
+_R = z3.RealSort()
+_I = z3.IntSort()
+UF_MUL = z3.Function("vf_mul", _R, _R, _R)
+UF_DIV = z3.Function("vf_div", _R, _R, _R)
+UF_IMUL = z3.Function("vf_imul", _I, _I, _I)
+UF_IDIV = z3.Function("vf_idiv", _I, _I, _I)
+UF_IMOD = z3.Function("vf_imod", _I, _I, _I)
+
+
+class _Canon:
+    """semantic canonicaliser for the arguments of abstracted products / quotients / function applications:
+    two argument terms that are *valid-equal* (checked by a small solver query on their own abstraction) are
+    replaced by one representative, so that congruence becomes syntactic for the final query."""
+
+    def __init__(self):
+        self.reps = {}
+        self.vars = {}
+        self.solver = z3.Solver()
+        self.solver.set("timeout", 2000)
+        self.checks = 0
+
+    def fv(self, e):
+        k = e.get_id()
+        r = self.vars.get(k)
+        if r is None:
+            if z3.is_const(e):
+                r = frozenset() if _isnum(e) or e.decl().kind() != z3.Z3_OP_UNINTERPRETED else frozenset([k])
+            else:
+                r = frozenset()
+                for c in e.children():
+                    r = r | self.fv(c)
+            self.vars[k] = r
+        return r
+
+    def canon(self, a):
+        if _isnum(a) or z3.is_const(a):
+            return a
+        key = (self.fv(a), a.sort().kind())
+        lst = self.reps.setdefault(key, [])
+        for rep in lst:
+            if rep.get_id() == a.get_id():
+                return rep
+        for rep in lst[:12]:
+            self.checks += 1
+            if self.solver.check(a != rep) == z3.unsat:
+                return rep
+        lst.append(a)
+        return a
+
+
+def abstract_nl(e, memo, canon=None):
+    """replace symbolic*symbolic products and symbolic divisors by uninterpreted functions with canonically
+    ordered (and semantically canonicalised) arguments; unsat of the abstraction implies unsat over the
+    reals/integers"""
+    k = e.get_id()
+    r = memo.get(k)
+    if r is not None:
+        return r
+    if not z3.is_app(e) or e.num_args() == 0:
+        memo[k] = e
+        return e
+    kind = e.decl().kind()
+    args = [abstract_nl(c, memo, canon) for c in e.children()]
+    cz = (lambda a: canon.canon(a)) if canon is not None else (lambda a: a)
+    if kind == z3.Z3_OP_MUL:
+        nums = [a for a in args if _isnum(a)]
+        rest = [a for a in args if not _isnum(a)]
+        if len(rest) >= 2:
+            rest = sorted((cz(a) for a in rest), key=lambda a: a.get_id())
+            isint = z3.is_int(rest[0])
+            F = UF_IMUL if isint else UF_MUL
+            m = rest[0]
+            for a in rest[1:]:
+                m = F(m, a)
+            r = m
+            for c in nums:
+                r = c * r
+        else:
+            r = e.decl()(*args)
+    elif kind == z3.Z3_OP_DIV and not _isnum(args[1]):
+        r = UF_DIV(cz(args[0]), cz(args[1]))
+    elif kind == z3.Z3_OP_IDIV and not _isnum(args[1]):
+        r = UF_IDIV(cz(args[0]), cz(args[1]))
+    elif kind == z3.Z3_OP_MOD and not _isnum(args[1]):
+        r = UF_IMOD(cz(args[0]), cz(args[1]))
+    elif kind == z3.Z3_OP_POWER:
+        if _isnum(args[1]) and z3.is_int_value(z3.simplify(args[1])) and 2 <= z3.simplify(args[1]).as_long() <= 6:
+            n = z3.simplify(args[1]).as_long()
+            F = UF_IMUL if z3.is_int(args[0]) else UF_MUL
+            a0 = cz(args[0])
+            r = a0
+            for _ in range(n - 1):
+                r = F(r, a0) if r.get_id() <= a0.get_id() else F(a0, r)
+        else:
+            r = e.decl()(*args)
+    elif kind == z3.Z3_OP_UNINTERPRETED:
+        r = e.decl()(*[cz(a) for a in args])
+    else:
+        try:
+            r = e.decl()(*args)
+        except Exception:
+            r = e
+    memo[k] = r
+    return r
+
+
+def discharge(path, cond, timeout_ms, stats=None):
+    """unsat / sat(model) / unknown for  path && !cond.
+    1. abstraction (products/quotients uninterpreted, QF_UFLIRA) -- unsat there is sound;
+    2. the full nonlinear query in a fresh solver."""
+    memo = {}
+    goal = list(path) + [z3.Not(cond)]
+    t = time.time()
+    try:
+        canon = _Canon()
+        abs_goal = [abstract_nl(c, memo, canon) for c in goal]
+        s = z3.Solver()
+        s.set("timeout", min(timeout_ms, 20000))
+        for c in abs_goal:
+            s.add(c)
+        r = s.check()
+    except Exception:
+        r = z3.unknown
+    if stats is not None:
+        stats.solver_s += time.time() - t
+        stats.queries += 1
+    if r == z3.unsat:
+        if stats is not None:
+            stats.abstraction_proved = getattr(stats, "abstraction_proved", 0) + 1
+        return "unsat", None
+    r, m = solve_fresh(goal, min(timeout_ms, 8000), stats)
+    if r != "unknown":
+        return r, m
+    # the nonlinear query was not decided quickly: look for a counterexample of a *strengthened* (linearised)
+    # query -- variables in nonlinear positions are fixed to grid values; `sat` there is a model of the original
+    m = guided_sat(goal, stats)
+    if m is not None:
+        return "sat", m
+    if timeout_ms > 8000:
+        return solve_fresh(goal, timeout_ms, stats)
+    return "unknown", None
+
+
+def _vars_of(e, memo):
+    k = e.get_id()
+    r = memo.get(k)
+    if r is None:
+        if z3.is_const(e):
+            r = {}
+            if not _isnum(e) and e.decl().kind() == z3.Z3_OP_UNINTERPRETED and (z3.is_real(e) or z3.is_int(e)):
+                r = {k: e}
+        else:
+            r = {}
+            for c in e.children():
+                r.update(_vars_of(c, memo))
+        memo[k] = r
+    return r
+
+
+def _nl_vars(e, memo, vmemo, out):
+    k = e.get_id()
+    if k in memo:
+        return
+    memo[k] = True
+    if not z3.is_app(e) or e.num_args() == 0:
+        return
+    kind = e.decl().kind()
+    ch = e.children()
+    if kind == z3.Z3_OP_MUL:
+        rest = [a for a in ch if not _isnum(a)]
+        if len(rest) >= 2:
+            rest.sort(key=lambda a: len(_vars_of(a, vmemo)))
+            for a in rest[:-1]:
+                out.update(_vars_of(a, vmemo))
+    elif kind in (z3.Z3_OP_DIV, z3.Z3_OP_IDIV, z3.Z3_OP_MOD) and not _isnum(ch[1]):
+        out.update(_vars_of(ch[1], vmemo))
+    elif kind == z3.Z3_OP_POWER:
+        out.update(_vars_of(ch[0], vmemo))
+    elif kind == z3.Z3_OP_UNINTERPRETED and e.decl().name() in ("vf_sqrt",):
+        for a in ch:
+            out.update(_vars_of(a, vmemo))
+    for c in ch:
+        _nl_vars(c, memo, vmemo, out)
+
+
+def guided_sat(goal, stats=None, attempts=300, budget_s=20.0):
+    import random
+
+    vmemo, out = {}, {}
+    seen = {}
+    for c in goal:
+        _nl_vars(c, seen, vmemo, out)
+    allv = {}
+    for c in goal:
+        allv.update(_vars_of(c, vmemo))
+    rng = random.Random(len(goal) * 7919 + len(out))
+    grid = [Fraction(k, 8) for k in range(-40, 41) if k != 0]
+    t_start = time.time()
+    for i in range(attempts):
+        if time.time() - t_start > budget_s:
+            break
+        plan = out if (i % 2 == 0 and out) else allv
+        fix = []
+        for v in plan.values():
+            if z3.is_int(v):
+                fix.append(v == rng.randint(-3, 6))
+            else:
+                fix.append(v == z3.RealVal(rng.choice(grid)))
+        t = time.time()
+        s = z3.Solver()
+        s.set("timeout", 2000)
+        for c in goal:
+            s.add(c)
+        for c in fix:
+            s.add(c)
+        r = s.check()
+        if stats is not None:
+            stats.solver_s += time.time() - t
+            stats.queries += 1
+        if r == z3.sat:
+            return s.model()
+    return None
 
 
 # -------------------------------------------------------------------- value wrappers
@@ -746,10 +986,14 @@ class SReal(SNum):
         return wrap(z3.ToReal(z3.ToInt(self.e)) == self.e)
 
 
+UF_SQRT = z3.Function("vf_sqrt", z3.RealSort(), z3.RealSort())
+
+
 def sym_sqrt(x):
+    """sqrt(x) as an uninterpreted function application constrained by s >= 0 and s*s = x
+    (congruence then gives sqrt(a) = sqrt(b) whenever a = b is provable)"""
     c = Ctx.cur
-    e = zreal(x)
-    e = z3.simplify(e)
+    e = z3.simplify(zreal(x))
     if z3.is_rational_value(e):
         fr = Fraction(e.numerator_as_long(), e.denominator_as_long())
         import math
@@ -758,11 +1002,14 @@ def sym_sqrt(x):
             num, den = math.isqrt(fr.numerator), math.isqrt(fr.denominator)
             if num * num == fr.numerator and den * den == fr.denominator:
                 return Fraction(num, den)
-    _flag_nl()
-    s = c.aux_real("sqrt")
-    c.add(s >= 0)
-    c.add(s * s == e)
-    c._model = None
+    s = UF_SQRT(e)
+    key = e.get_id()
+    if key not in c.sqrt_seen:
+        c.sqrt_seen[key] = e  # keep the term alive so that the id stays unique
+        _flag_nl()
+        c.add(s >= 0)
+        c.add(s * s == e)
+        c._model = None
     return SReal(s)
 
 
